@@ -9,6 +9,7 @@ import re
 from collections import defaultdict, OrderedDict
 
 from mirlib import callee_path, callee_ty_args, op_int, op_place, fmt_span
+import mirlib
 import geninterp
 from geninterp import (Interp, Unanalysable, Violation, Rec, Agg, Enum, Own, Unk, Buf, Const, Ref,
                        MD, Moved, PRIM_PREFIX, NO_UNWIND_EXTERNAL)
@@ -373,6 +374,28 @@ class Module:
             if align and self.repr_align % align != 0:
                 self.add(['C02', 'C07'], 'G-CAP', fn, 'record types are repr(align(%d)) but hold a %s of alignment %d' % (self.repr_align, ty, align), key='repr.%s' % ty)
 
+    def check_prim_guards(self):
+        """G-PRIM (C04 / C07): whatever a storage primitive tests before it touches the buffer lets every access of
+        the generated code through — its body (helpers inlined) is evaluated on the literals of each distinct call
+        site: size and alignment of the type, offset, capacity = MAX_SIZE.  Only a panic that every decision on
+        the way leads to is reported."""
+        seen = set()
+        for a in self.accesses:
+            ps = self.prim_summary.get(a['prim'])
+            if not isinstance(ps, dict) or not ps.get('body') or a.get('size') is None:
+                continue
+            key = (a['prim'], a['size'], a['align'], a['k'])
+            if key in seen or a['k'] + a['size'] > self.max_size:
+                continue
+            seen.add(key)
+            self.stats['prim_guard_evals'] += 1
+            out, where = mirlib.const_eval_outcome(ps['body'], {2: a['k']}, {'CAP': self.max_size}, (a['size'], a['align'] or 1))
+            if out == 'panic':
+                self.add(['C04', 'C07'], 'G-PRIM', a['fn'],
+                         '%s::<%s>(%d): the primitive refuses this access itself (a value of %d bytes at offset %d of a record of capacity %d lies within the record) — it panics at %s instead of answering [%s]' % (
+                             a['prim'], a['ty'], a['k'], a['size'], a['k'], self.max_size, where, a['span']),
+                         key='prim-guard.%s.%d.%d.%d' % (a['prim'], a['size'], a['k'], self.max_size))
+
     def check_dest(self):
         """G-DEST (C07): an access through an alignment-requiring primitive whose receiver
         is a bare RecordMaybeUninit local (alignment 1), not the field of a repr(align) record."""
@@ -555,6 +578,7 @@ class Module:
         self.check_presence(present)
         self.check_cap()
         self.check_dest()
+        self.check_prim_guards()
 
     def check_presence(self, present):
         vs = sorted(self.records)
